@@ -129,6 +129,11 @@ theorem append_groups_truncated :
     blocks.all (fun b => b.appendGroups.all (fun g => g.all (fun l => b.truncates.contains l))) = true := by
   decide +kernel
 
+/-- apart from putting back what it saved and cutting the shared lists back to their common length, no handler changes
+(or may change, under some condition) the per-function state or a shared result list — the model's `handler` touches
+only `str` and `sym`, and `truncate3` only shortens -/
+theorem handler_changes_nothing_else : blocks.all (fun b => b.handlerMutates.isEmpty) = true := by decide +kernel
+
 /-! ### non-vacuity -/
 example : blocks.length = 7 := by decide
 example : (runBlock (⟨"2*a0*x", 0, []⟩ : Tri String Nat (List String))
